@@ -166,4 +166,35 @@ theorem tie_rsaLastChunk (limit i len : Int) : rsaLastChunk limit i len = decide
 theorem tie_rsaEmptyInput (n : Nat) : rsaEmptyInput n = decide (n = 0) := by
   unfold rsaEmptyInput; simp
 
+/-! ### round 5: the decrypters of a route group; delegating constructors and options -/
+
+/-- the key loading of `signatureVerifier`, TRANSLATED: a map made fresh for the call, one store
+`decrypters[key.Fingerprint] = NewRsaDecrypter(key.KeyFile)` per key of the group's own `signature.PrivateKeys`, a failed
+load ends it — equal to the model's `loadDecrypters` for EVERY loader and key list. (A map kept in the engine and shared
+between groups, a swapped fingerprint / file, a store before the error check are refused by the translator.) -/
+theorem tie_loadDecrypters {D : Type} (load : String → Option D) (keys : List KeyConf) :
+    svLoadDecrypters load keys = GoZero.C18.loadDecrypters load keys := rfl
+
+/-- … and that map — no other — is the gate's second argument, on both call sites -/
+theorem tie_gateMap : svGateMap = ["decrypters"]
+    ∧ contentSecurityArgs = ["ng.conf.MaxBytes | decrypters | signature.Expiry | signature.Strict",
+        "ng.conf.MaxBytes | decrypters | signature.Expiry | signature.Strict | ng.unsignedCallback"] := by decide
+
+/-- `ParseContentSecurity` gets the gate's decrypters and THIS request; the secret field is what is decrypted, the first
+header value and the decrypted secret are what `ParseHeader` splits -/
+theorem tie_parseContentSecurityCalls : parseContentSecurityArgs = ["decrypters | r"]
+    ∧ decryptBase64Args = ["secret"] ∧ parseHeaderArgs = ["contentSecurity", "string(decryptedSecret)"] := by decide
+
+/-- the one-line constructors forward everything: `ContentSecurityHandler(decrypters, tolerance, strict, callbacks...)` =
+`LimitContentSecurityHandler(maxBytes, decrypters, tolerance, strict, callbacks...)` -/
+theorem tie_contentSecurityWrapper : contentSecurityWrapperArgs = ["maxBytes | decrypters | tolerance | strict | callbacks..."] := by decide
+
+/-- `HmacBase64(key, body)` is the base64 of `Hmac(key, body)`, which writes exactly `body` into the keyed hash -/
+theorem tie_hmacCalls : hmacCallArgs = ["key | body"] ∧ hmacWriteArgs = ["h | body"] := by decide
+
+/-- the options of `Authorize` and the server-level callback setters store what they are given -/
+theorem tie_authorizeOptions : withPrevSecretAssigns = ["opts.PrevSecret = secret"]
+    ∧ authWithCallbackAssigns = ["opts.Callback = callback"]
+    ∧ withUnsignedCallbackCalls = ["svr.ngin.setUnsignedCallback(callback)"] := by decide
+
 end GoZero.C18.TieRest
